@@ -3,6 +3,7 @@ import SciVerif.Model.Fmt
 import SciVerif.Tie.C20Sem
 import SciVerif.Model.Components
 import SciVerif.Tie.ProcSem
+import SciVerif.Tie.RunSem
 /-!
 Line-protocol driver (Tie B): one request per line on stdin (tab separated), one response line.
 It runs the *executable models*, instantiated with the semantics records Tie A regenerated from
@@ -343,6 +344,24 @@ def handle (line : String) : String :=
     match r.1 with
     | none => s!"none explored={r.2}"
     | some p => s!"witness explored={r.2} labels=" ++ ",".intercalate p
+  | ["plan", n, edges, inPorts, hasOut, selfFed, targets] =>
+    let es := (if edges.isEmpty then [] else edges.splitOn ",").filterMap fun e =>
+      match e.splitOn ":" with
+      | [a, b, c] => match a.toNat?, b.toNat?, c.toNat? with | some a, some b, some c => some (a, b, c) | _, _, _ => none
+      | _ => none
+    let sf := (if selfFed.isEmpty then [] else selfFed.splitOn ",").filterMap fun e =>
+      match e.splitOn ":" with
+      | [a, b] => match a.toNat?, b.toNat? with | some a, some b => some (a, b) | _, _ => none
+      | _ => none
+    let wf : Graph.Wf := { n := n.toNat!, edges := es, inPorts := parseNats inPorts, hasOut := (parseNats hasOut).map (· != 0), selfFed := sf }
+    let ts := if targets == "-" then none else some (parseNats targets)
+    match Graph.plan runSem wf ts with
+    | .refused => "refused"
+    | .recursion => "recursion"
+    | .started gs d b =>
+      let g := (gs.toArray.qsort (· < ·)).toList
+      s!"started gs={",".intercalate (g.map toString)} driver={match d with | some x => toString x | none => "sink"} sink={b}"
+  | ["run.sem"] => s!"skipSelf={runSem.skipSelf};driverRemovedFromArg={runSem.driverRemovedFromArg};singleProcKept={runSem.singleProcKept};driverReadyChecked={runSem.driverReadyChecked};sinkWaited={runSem.sinkWaited};readyBeforeStart={runSem.readyBeforeStart}"
   | ["task.c01search"] =>
     match TaskSim.c01Search taskSem with
     | none => "none"
